@@ -188,6 +188,8 @@ type crSess struct {
 	stepKind    []string
 	recording   bool
 	intents     []string // the session's intent lines (for the real-kill child)
+	vlogOf      map[string]int // "hexkey@version" -> value-log file holding the value
+	vlogOrder   []string       // the same keys in the order they were written
 	base        int      // events of earlier recordings in this session
 	st          *Stats
 }
@@ -378,17 +380,21 @@ type crStored struct {
 }
 
 func crDumpDB(db *badger.DB) []crStored {
-	seen := map[string]bool{}
+	seenAt := map[string]int{}
 	var out []crStored
 	add := func(e badger.VEntry) {
 		if bytes.HasPrefix(e.Key, []byte("!badger!")) {
 			return
 		}
 		id := fmt.Sprintf("%x@%d", e.Key, e.Version)
-		if seen[id] {
+		if ix, dup := seenAt[id]; dup {
+			// a value-log GC write-back next to the original entry: show a readable copy
+			if out[ix].rderr != "" && e.ReadErr == "" {
+				out[ix] = crStored{key: string(e.Key), ver: e.Version, del: e.Meta&1 != 0, val: e.Value}
+			}
 			return
 		}
-		seen[id] = true
+		seenAt[id] = len(out)
 		out = append(out, crStored{key: string(e.Key), ver: e.Version, del: e.Meta&1 != 0, val: e.Value, rderr: e.ReadErr})
 	}
 	for _, m := range badger.VerifMemEntries(db) {
@@ -692,7 +698,7 @@ func execCrash(intents []string, st *Stats) (final, outs, oracle []string) {
 		case "reset":
 			s.closeAll()
 			kv := kvWords(w[1:])
-			*s = crSess{st: st, blobs: map[[20]byte][]byte{}}
+			*s = crSess{st: st, blobs: map[[20]byte][]byte{}, vlogOf: map[string]int{}}
 			s.cfg = crCfg{sync: kvInt(kv, "sync", 1) != 0, memsz: kvInt(kv, "memsz", 8192), thr: kvInt(kv, "thr", 32),
 				vmax: kvInt(kv, "vmax", 1000), keep: kvInt(kv, "keep", 1000), l0close: kvInt(kv, "l0close", 0) != 0}
 			s.dir = scratchDir()
@@ -748,6 +754,19 @@ func execCrash(intents []string, st *Stats) (final, outs, oracle []string) {
 			for _, e := range s.events {
 				if e.step == s.steps && e.Kind == badger.VevCreate && strings.HasSuffix(e.file, ".mem") {
 					rot = 1
+				}
+			}
+			vf := 0
+			for _, e := range s.events {
+				if e.step == s.steps && vf == 0 && e.Kind == badger.VevWrite && strings.HasSuffix(e.file, ".vlog") && e.A >= 20 {
+					fmt.Sscanf(strings.TrimPrefix(e.tok, "write:vlog"), "%d", &vf)
+				}
+			}
+			for _, e := range ents {
+				if !e.del && len(e.val) >= s.cfg.thr && vf > 0 {
+					k := fmt.Sprintf("%s@%d", hx(e.key), c.ts)
+					s.vlogOf[k] = vf
+					s.vlogOrder = append(s.vlogOrder, k)
 				}
 			}
 			emit(fmt.Sprintf("commit %s rot=%d", w[1], rot), fmt.Sprintf("ts=%d ", c.ts)+s.stepTokens(s.steps, false))
@@ -831,6 +850,12 @@ func execCrash(intents []string, st *Stats) (final, outs, oracle []string) {
 			st.Inc(fmt.Sprintf("compact:L%d,new=%d,del=%d", this, len(created), len(deleted)))
 			s.stepKind = append(s.stepKind, "compact")
 			s.steps++
+		case "gc", "gc-none":
+			if s.db == nil {
+				emit(line, "bad-op")
+				continue
+			}
+			s.gc(emit, fail)
 		case "reopen":
 			if s.db == nil {
 				emit(line, "bad-op")
@@ -1083,6 +1108,9 @@ func genCrashSession(rng *rand.Rand, st *Stats) []string {
 			ops = append(ops, "flush")
 		case r < 88:
 			ops = append(ops, fmt.Sprintf("compact pick=%d", rng.Intn(4)))
+		case r < 84 && vmax <= 5 && params["mode"] != "power":
+			// value-log GC of the oldest file: old versions are written back at the WAL tail
+			ops = append(ops, "gc")
 		case r < 88+pReopen:
 			ops = append(ops, "reopen")
 		case r < 88+pReopen+pC07:
@@ -1613,7 +1641,7 @@ func (s *crSess) realKills(n int, emit func(string, string), fail func(string)) 
 	for _, l := range s.intents {
 		w := strings.Fields(l)
 		switch w[0] {
-		case "reset", "commit", "flush", "reopen", "c07":
+		case "reset", "commit", "flush", "reopen", "c07", "gc":
 			lines = append(lines, l)
 		case "compact", "compact-none":
 			lines = append(lines, l)
@@ -1771,6 +1799,14 @@ func crashChild(intents []string) {
 			}
 		case "flush":
 			_ = badger.VerifFlush(db)
+		case "gc":
+			fids, max := badger.VerifVlogFids(db)
+			if len(fids) > 0 && fids[0] < max {
+				_ = badger.VerifVlogRewrite(db, fids[0])
+			}
+			for badger.VerifImmCount(db) > 0 {
+				time.Sleep(100 * time.Microsecond)
+			}
 		case "compact", "compact-none":
 			kv := kvWords(w[1:])
 			lvl := kvInt(kv, "pick", 0)
@@ -1801,4 +1837,111 @@ func crashChild(intents []string) {
 		_ = db.Close()
 	}
 	os.Exit(0)
+}
+
+// gc: value-log GC (valueLog.rewrite) of the oldest value-log file. Its live entries are
+// written back through batchSet with their ORIGINAL versions: the WAL then ends with versions
+// older than earlier records (what memTable.maxVersion / nextTxnTs must cope with after a crash).
+func (s *crSess) gc(emit func(string, string), fail func(string)) {
+	fids, max := badger.VerifVlogFids(s.db)
+	if len(fids) == 0 || fids[0] >= max {
+		emit("gc-none", "none")
+		s.stepKind = append(s.stepKind, "gc-none")
+		s.steps++
+		return
+	}
+	fid := int(fids[0])
+	stored := map[string]bool{}
+	for _, e := range crDumpDB(s.db) {
+		if !e.del {
+			stored[fmt.Sprintf("%s@%d", hx([]byte(e.key)), e.ver)] = true
+		}
+	}
+	var moved []string
+	for _, k := range s.vlogOrder {
+		if s.vlogOf[k] == fid && stored[k] {
+			moved = append(moved, k)
+		}
+	}
+	// the batches valueLog.rewrite forms (count / size limits of a transaction)
+	mc, ms, _ := badger.VerifLimits(s.db)
+	vlen := map[string]int{}
+	for _, c := range s.commits {
+		for _, e := range c.ents {
+			vlen[fmt.Sprintf("%s@%d", hx(e.key), c.ts)] = len(e.val)
+		}
+	}
+	var batches []int
+	n, size := 0, int64(0)
+	for _, k := range moved {
+		klen := len(k[:strings.IndexByte(k, '@')])/2 + 8
+		es := int64(klen+12+2) + int64(vlen[k])
+		if int64(n+1) >= mc || size+es >= ms {
+			batches = append(batches, n)
+			n, size = 0, 0
+		}
+		n++
+		size += es
+	}
+	if n > 0 {
+		batches = append(batches, n)
+	}
+	err := badger.VerifVlogRewrite(s.db, uint32(fid))
+	s.barrier()
+	if err != nil {
+		emit(fmt.Sprintf("gc fid=%d", fid), "err:"+strings.ReplaceAll(err.Error(), " ", "_"))
+		s.stepKind = append(s.stepKind, "gc")
+		s.steps++
+		return
+	}
+	// where the moved values live now, and in which batch the memtable was rotated
+	rots := make([]int, len(batches))
+	bi, inBatch, skipHdr, newFid := 0, 0, false, 0
+	mi := 0
+	for _, e := range s.events {
+		if e.step != s.steps || e.tok == "" {
+			continue
+		}
+		switch {
+		case e.Kind == badger.VevWrite && strings.HasSuffix(e.file, ".vlog") && e.A >= 20:
+			fmt.Sscanf(strings.TrimPrefix(e.tok, "write:vlog"), "%d", &newFid)
+			if mi < len(moved) {
+				s.vlogOf[moved[mi]] = newFid
+				s.vlogOrder = append(s.vlogOrder, moved[mi])
+				mi++
+			}
+		case e.Kind == badger.VevCreate && strings.HasSuffix(e.file, ".mem"):
+			if bi < len(rots) {
+				rots[bi] = 1
+			}
+			skipHdr = true
+		case e.Kind == badger.VevWrite && strings.HasSuffix(e.file, ".mem"):
+			if skipHdr {
+				skipHdr = false
+				continue
+			}
+			inBatch++
+			if bi < len(batches) && inBatch == batches[bi] {
+				bi, inBatch = bi+1, 0
+			}
+		}
+	}
+	js := func(xs []int) string {
+		var p []string
+		for _, x := range xs {
+			p = append(p, strconv.Itoa(x))
+		}
+		if len(p) == 0 {
+			return "-"
+		}
+		return strings.Join(p, ";")
+	}
+	mv := strings.Join(moved, "+")
+	if mv == "" {
+		mv = "-"
+	}
+	emit(fmt.Sprintf("gc fid=%d batches=%s rots=%s moved=%s", fid, js(batches), js(rots), mv), s.stepTokens(s.steps, false))
+	s.st.Inc(fmt.Sprintf("gc:moved=%s", sizeBucket(len(moved))))
+	s.stepKind = append(s.stepKind, "gc")
+	s.steps++
 }
